@@ -24,6 +24,7 @@ const (
 	ifC2 = 3 // child, owned
 	ifK  = 4 // core, owned
 	ifK2 = 5 // core, owned
+	ifPE = 6 // peer, owned
 	ifSC = 7 // child, owned by sibling router S1
 	ifSP = 8 // parent, owned by sibling router S1
 	ifSK = 9 // core, owned by sibling router S2
@@ -39,6 +40,7 @@ func stdAS(r *vlib.Rand, bfd map[uint16]bool) *asCfg {
 	mk(ifC2, false, topology.Child, 0xff0000000003, "203.0.113.3:3333")
 	mk(ifK, false, topology.Core, 0xff0000000004, "203.0.113.4:3333")
 	mk(ifK2, false, topology.Core, 0xff0000000005, "203.0.113.5:3333")
+	mk(ifPE, false, topology.Peer, 0xff0000000006, "203.0.113.6:3333")
 	mk(ifSC, true, topology.Child, 0xff0000000007, "198.51.100.7:3333")
 	mk(ifSP, true, topology.Parent, 0xff0000000008, "198.51.100.7:3333")
 	mk(ifSK, true, topology.Core, 0xff0000000009, "198.51.100.9:3333")
@@ -64,6 +66,7 @@ type scenario struct {
 	consDir   []bool
 	srcLocal  bool
 	dstLocal  bool
+	peering   bool // both info fields carry the Peer flag; the local hop is one of the two peering hops
 	validated int // absolute index of the hop validated last in this AS
 }
 
@@ -212,6 +215,27 @@ func randScenario(a *asCfg, r *vlib.Rand, kind int, wantRel int) (scenario, [2]p
 		} else {
 			hops[0] = path.HopField{ConsIngress: 0, ConsEgress: in}
 		}
+	case 4: // peering: child -> peer (last hop of segment 0, against construction direction) or
+		// peer -> child (first hop of segment 1, in construction direction); no effective cross-over
+		sc.peering = true
+		child := []uint16{ifC, ifC2, ifSC}[r.Intn(3)]
+		sc.segLens = []int{r.Range(2, 4), r.Range(2, 4)}
+		if wantRel == 1 {
+			sc.segLens[1] = 2
+		}
+		sc.consDir = []bool{false, true}
+		hops[0] = path.HopField{ConsIngress: ifPE, ConsEgress: child}
+		if r.Bool() || a.ifByID(child).sibling {
+			// up segment, leaving over the peering link (the child interface may be a sibling's)
+			sc.name = fmt.Sprintf("peering/%d-%d", child, ifPE)
+			sc.via, sc.egress = child, ifPE
+			sc.curSeg, sc.curHop = 0, sc.segLens[0]-1
+		} else {
+			sc.name = fmt.Sprintf("peering/%d-%d", ifPE, child)
+			sc.via, sc.egress = ifPE, child
+			sc.curSeg, sc.curHop = 1, sc.segLens[0]
+		}
+		sc.validated = sc.curHop
 	default: // originate: first hop, source local, from the internal network
 		outs := []uint16{ifP, ifC, ifK, ifC2, ifK2}
 		out := outs[r.Intn(len(outs))]
@@ -260,7 +284,7 @@ func (a *asCfg) buildPathTs(r *vlib.Rand, sc scenario, local [2]path.HopField, t
 	dec.NumHops = tot
 	for s, l := range sc.segLens {
 		dec.PathMeta.SegLen[s] = uint8(l)
-		dec.InfoFields = append(dec.InfoFields, path.InfoField{ConsDir: sc.consDir[s], SegID: uint16(r.Intn(65536)),
+		dec.InfoFields = append(dec.InfoFields, path.InfoField{ConsDir: sc.consDir[s], Peer: sc.peering, SegID: uint16(r.Intn(65536)),
 			Timestamp: ts - uint32(r.Intn(3))})
 	}
 	if fixTs0 {
@@ -280,7 +304,7 @@ func (a *asCfg) buildPathTs(r *vlib.Rand, sc scenario, local [2]path.HopField, t
 		beta := inf.SegID // the SegID the MAC is verified with
 		full := hopMacFull(a.key, beta, inf.Timestamp, h.ExpTime, h.ConsIngress, h.ConsEgress)
 		copy(h.Mac[:], full[:6])
-		if arrival && !inf.ConsDir && ingress != 0 {
+		if arrival && !inf.ConsDir && ingress != 0 && !sc.peering {
 			// the ingress router XORs the hop's MAC into the SegID before verifying
 			inf.SegID = beta ^ binary.BigEndian.Uint16(h.Mac[:2])
 		}
@@ -299,6 +323,41 @@ func (a *asCfg) buildPathTs(r *vlib.Rand, sc scenario, local [2]path.HopField, t
 		b.dst = a.ia
 	}
 	return b
+}
+
+// validatedAuth: full MAC of the hop validated last in this AS (the EPIC authenticator), computed
+// from the path as built: the SegID the router verifies that hop with.
+func (a *asCfg) validatedAuth(b *builtPath) []byte {
+	sc := b.sc
+	vSeg := sc.curSeg
+	if sc.xover {
+		vSeg++
+	}
+	vh := b.dec.HopFields[sc.validated]
+	vinf := b.dec.InfoFields[vSeg]
+	beta := vinf.SegID
+	if !sc.xover && !sc.peering && !vinf.ConsDir && a.ingressOf(sc.via) != 0 {
+		beta ^= binary.BigEndian.Uint16(vh.Mac[:2])
+	}
+	return hopMacFull(a.key, beta, vinf.Timestamp, vh.ExpTime, vh.ConsIngress, vh.ConsEgress)
+}
+
+// validEpic builds a fresh EPIC packet with both hop validation fields valid for the hop validated last.
+func (a *asCfg) validEpic(r *vlib.Rand, sc scenario, hops [2]path.HopField, nowNs int64) []byte {
+	target := nowNs - 1e9
+	ts0 := uint32(target/1e9) - uint32(r.Range(1, 100))
+	epicTS := uint32((target-int64(ts0)*1e9)/21000 - 1)
+	b := a.buildPathTs(r, sc, hops, ts0, true)
+	auth := a.validatedAuth(b)
+	srcHost := randHost(r)
+	pld := r.Bytes(r.Range(0, 20))
+	ctr := uint32(r.U64())
+	eh := &epic.Path{PktID: epic.PktID{Timestamp: epicTS, Counter: ctr}, PHVF: make([]byte, 4), LHVF: make([]byte, 4)}
+	raw0 := b.packet(r, eh, srcHost, nil, 0, pld)
+	h0, _ := parseRawHdr(raw0)
+	good := epicMacOwn(auth, h0.srcType, ts0, epicTS, ctr, h0.srcIA, h0.srcAddr, uint16(h0.payloadLen))
+	eh.PHVF, eh.LHVF = good, append([]byte(nil), good...)
+	return b.packet(r, eh, srcHost, nil, 0, pld)
 }
 
 // packet serialises the path as a SCION-path packet (epicHdr nil) or as an EPIC packet.
